@@ -66,6 +66,26 @@ def _poly_pst13(rng, p, nv, deg):
     return toks, shape
 
 
+LINCODE_MUTS = ["col_tamper", "col_tamper", "col_swap", "path_swap", "both_swap", "dup_col", "path_index", "path_node", "trunc_cols",
+                "trunc_paths", "extra_col", "v_tamper", "v_stretch", "v_shorten", "wf_tamper", "wf_drop", "wf_stretch", "list_drop", "list_extend"]
+PROOF_MUTS = {
+    "ipa": ["l_tamper", "r_tamper", "final_key", "c_tamper", "drop_round", "extra_round_identity", "extra_round_random", "unbalanced",
+            "rand_tamper", "hiding_comm_tamper", "hiding_drop"],
+    "pst13": ["w_tamper", "w_shorter", "w_longer", "w_swap", "rv", "rv_drop"],
+    "hyrax": ["com_eval", "com_d", "com_b", "z_tamper", "z_stretch", "z_shorten", "z_d", "z_b", "r_eval", "list_drop", "list_extend"],
+    "ligero_uni": LINCODE_MUTS, "ligero_ml": LINCODE_MUTS, "brakedown_ml": LINCODE_MUTS,
+    "marlin": ["w_add", "rv"], "sonic": ["w_add", "rv"],
+}
+# surplus data the verifier never looks at: no expectation with the TRUE value (still "reject" with a false one)
+BENIGN_WITH_TRUE_VALUE = {"extra_col", "list_extend", "w_longer", "w_shorter"}   # w_shorter: a dropped identity witness is the same relation
+
+
+def proof_mut_args(rng, scheme, kind, p):
+    if scheme in ("marlin", "sonic"):
+        return [rf_nz(rng, p)] if kind == "w_add" else [rng.choice(["none", rf_uniform(rng, p)])]
+    return [rng.randrange(64), rng.randrange(1, 1 << 30)]
+
+
 def make_case(rng, cid, scheme, tier, opts=None):
     """Builds an in-domain honest scenario; `opts` tune sizes and shapes."""
     opts = opts or {}
@@ -325,8 +345,18 @@ def add_mutations(rng, c, profile):
                 ot = [t2 for t2, o2 in enumerate(c.meta["ops"]) if t2 != t and o2["kind"] == "single"]
                 if ot:
                     put(t, "proof_from", [rng.choice(ot)], "info")
-                if scheme in ("marlin", "sonic"):
-                    put(t, "proof_mut", ["w_add", rf_nz(rng, p)], "reject")
+                kinds = PROOF_MUTS.get(scheme, [])
+                for kind in rng.sample(kinds, min(len(kinds), 7)):
+                    args = [kind] + proof_mut_args(rng, scheme, kind, p)
+                    if scheme in ("marlin", "sonic") and kind == "rv":
+                        put(t, "proof_mut", args, "reject?", "rv")      # decided by the model (may be the identical value)
+                        continue
+                    if profile == "c10":
+                        put(t, "proof_mut", args, "reject?" if kind in BENIGN_WITH_TRUE_VALUE else "reject")
+                    else:
+                        put(t, "proof_mut_v", args, "reject")
+                if scheme == "ipa" and len(sel) == 1 and c.fields["bound.%d" % sel[0]][0] == "none":
+                    put(t, "attack", ["padded_key"], "reject")
             if profile in ("c11",):
                 if any(not c.meta["const"][i] for i in sel):
                     put(t, "sponge_pre", [rf_uniform(rng, p)], "reject")
@@ -389,6 +419,12 @@ def add_mutations(rng, c, profile):
                 if nkeys >= 2:
                     a, b = rng.sample(range(nkeys), 2)
                     put(t, "cancel", [a, b, rf_nz(rng, p)], "reject")
+            if profile in ("c03", "c10", "c05"):
+                kinds = PROOF_MUTS.get(scheme, [])
+                for kind in rng.sample(kinds, min(len(kinds), 3)):
+                    if kind in BENIGN_WITH_TRUE_VALUE or (scheme in ("marlin", "sonic") and kind == "rv"):
+                        continue
+                    put(t, "proof_mut", [rng.randrange(op["nlabels"]), kind] + proof_mut_args(rng, scheme, kind, p), "reject")
             if profile in ("c05", "c03"):
                 nl = op["nlabels"]
                 put(t, "proofs", ["empty"], "reject")
